@@ -1,0 +1,34 @@
+//go:build verif
+
+package cache
+
+import (
+	"os"
+	"strconv"
+)
+
+// Verification hooks (build tag "verif" only): the two worker-pool limits are unexported package
+// variables; checks need to run directory operations under small and unusual pool sizes.
+
+// SetWorkerLimits overrides the shared and dedicated worker-pool sizes.
+func SetWorkerLimits(shared, dedicated int) {
+	maxSharedWorkers = shared
+	maxDedicatedWorkers = dedicated
+}
+
+// WorkerLimits returns the current pool sizes.
+func WorkerLimits() (shared, dedicated int) {
+	return maxSharedWorkers, maxDedicatedWorkers
+}
+
+func init() {
+	if v, err := strconv.Atoi(os.Getenv("DUD_VERIF_SHARED_WORKERS")); err == nil {
+		maxSharedWorkers = v
+	}
+	if v, err := strconv.Atoi(os.Getenv("DUD_VERIF_DEDICATED_WORKERS")); err == nil {
+		maxDedicatedWorkers = v
+	}
+	if os.Getenv("DUD_VERIF_FORCE_NO_RENAME") == "1" {
+		canRenameFileBetweenDirs = func(srcDir, dstDir string) (bool, error) { return false, nil }
+	}
+}
